@@ -411,7 +411,7 @@ theorem line_outside_rejected (f : VF V) (p1 p2 : List Rat) (n : Nat)
   rcases h with h | h <;> simp [h]
 
 omit [Inhabited V] in
-/-- † Finding D23: on a 1-d mesh `Field.line` never succeeds (the code's `Mesh.line` yields bare
+/-- † Finding D43: on a 1-d mesh `Field.line` never succeeds (the code's `Mesh.line` yields bare
 numbers and `Line.__init__` then fails), although the property promises a line for every mesh. -/
 theorem line_1d_rejected (f : VF V) (p1 p2 : List Rat) (n : Nat) (h : f.mesh.ndim = 1) :
     ∃ e, f.line p1 p2 n = .error e := by
@@ -457,7 +457,7 @@ theorem update_malformed_rejected (isZero : V → Bool) (junk : Option V) (f : V
   · simp [VF.update, updateValues, asArray_scalar_rejected isZero junk v f.mesh f.nvdim h1 h2]
   · simp [VF.update, updateValues, asArray_wrong_count_rejected isZero junk a f.mesh f.nvdim h1 h2]
 
-/-- † Finding D24: the `array` setter converts only once, and the source-field overload does not
+/-- † Finding D44: the `array` setter converts only once, and the source-field overload does not
 check the component count, so `field.array = other_field` with another `nvdim` is ACCEPTED and
 leaves an array whose last axis is not `nvdim` (`update_field_values` rejects it, see
 `updateValues_field_wrong_nvdim_rejected`). -/
@@ -598,7 +598,7 @@ theorem asArray_dict_accepts (isZero : V → Bool) (items : List (String × Leaf
   refine ⟨unwrap a1, by simp [asArray, hfill, ha1, hany], ?_⟩
   exact (dictLoop_get isZero items m nv _ _ a1 ha1).1
 
-/-- † Finding D21: for a dtype that cannot hold NaN (int, bool) `np.full(…, np.nan, dtype)` stores
+/-- † Finding D41: for a dtype that cannot hold NaN (int, bool) `np.full(…, np.nan, dtype)` stores
 the cast value `g`, `np.isnan` never fires, and a dictionary whose default is callable or missing
 leaves `g` in every cell no listed subregion covers — no default pass, no `KeyError`.  (Shown on a
 mesh without subregions; the property's theorems above are stated for `junk = none`.) -/
